@@ -147,7 +147,17 @@ func TestC20(t *testing.T) {
 
 var bindErrRE = regexp.MustCompile(`listen tcp [^ ]*:(\d+): bind`)
 
+// c20RunOption retries a case whose outcome could not be determined (a "free" port taken by
+// another process between probing and binding): ports are picked afresh each time.
 func c20RunOption(t *testing.T, run *Run, bin string, sc c20Scenario) {
+	for attempt := 0; attempt < 4; attempt++ {
+		if c20RunOptionOnce(t, run, bin, sc, attempt == 3) {
+			return
+		}
+	}
+}
+
+func c20RunOptionOnce(t *testing.T, run *Run, bin string, sc c20Scenario, last bool) (decided bool) {
 	fail := func(sig, format string, a ...any) { run.Violate(sig, fmt.Sprintf(format, a...), sc, nil) }
 	dir, _ := os.MkdirTemp("", "vh-c20-")
 	defer os.RemoveAll(dir)
@@ -220,7 +230,7 @@ func c20RunOption(t *testing.T, run *Run, bin string, sc c20Scenario) {
 	cmd.SysProcAttr = &syscall.SysProcAttr{Setpgid: true}
 	if err := cmd.Start(); err != nil {
 		run.Inconclusive("cannot start: %v", err)
-		return
+		return true
 	}
 	exited := make(chan struct{})
 	go func() { cmd.Wait(); close(exited) }()
@@ -238,6 +248,13 @@ func c20RunOption(t *testing.T, run *Run, bin string, sc c20Scenario) {
 		default:
 			time.Sleep(10 * time.Millisecond)
 		}
+	}
+	if started && isBool {
+		// a command that saves the state makes the proxy log "Saved state" at debug level
+		// before it answers, so the record (if debug logging is on) is there when the CLI returns
+		cli := exec.Command(bin, "remove", "nosuch")
+		cli.Env = env
+		cli.CombinedOutput()
 	}
 	if started {
 		syscall.Kill(-cmd.Process.Pid, syscall.SIGTERM)
@@ -259,16 +276,18 @@ func c20RunOption(t *testing.T, run *Run, bin string, sc c20Scenario) {
 	class := fmt.Sprintf("run|%s|flag=%s|pref=%s|bare=%s", sc.Opt, sc.Flag, sc.Pref, sc.Bare)
 	if isBool {
 		if !started {
-			run.Inconclusive("proxy did not start for the debug option: %s", trunc(text, 200))
-			return
+			if last {
+				run.Inconclusive("proxy did not start for the debug option: %s", trunc(text, 600))
+			}
+			return last
 		}
-		gotDebug := strings.Contains(text, `"level":"DEBUG"`)
+		gotDebug := strings.Contains(text, `"level":"DEBUG"`) && strings.Contains(text, "Saved state")
 		if gotDebug != wantDebug {
 			fail("run-option:debug", "debug: flag=%s KAMAL_PROXY_DEBUG=%s DEBUG=%s -> debug records present=%v, expected %v", sc.Flag, sc.Pref, sc.Bare, gotDebug, wantDebug)
-			return
+			return true
 		}
 		run.Class(class)
-		return
+		return true
 	}
 	got := -1
 	if started {
@@ -293,15 +312,21 @@ func c20RunOption(t *testing.T, run *Run, bin string, sc c20Scenario) {
 		}
 	}
 	if got < 0 {
-		run.Inconclusive("could not determine the effective %s: %s", sc.Opt, trunc(text, 300))
-		return
+		if last {
+			run.Inconclusive("could not determine the effective %s: %s", sc.Opt, trunc(text, 900))
+		}
+		return last
 	}
 	if got != wantPort {
+		if !started && !last {
+			return false // decided from a bind error only: confirm with fresh ports first
+		}
 		fail("run-option:"+sc.Opt, "%s: flag=%s KAMAL_PROXY_%s=%s %s=%s -> effective port %d, expected %d", sc.Opt, sc.Flag, name, sc.Pref, name, sc.Bare, got, wantPort)
-		return
+		return true
 	}
 	run.Class(class)
 	run.Sample(map[string]any{"part": "run-option", "option": sc.Opt, "flag": sc.Flag, "prefixed": sc.Pref, "bare": sc.Bare, "effective": got})
+	return true
 }
 
 func c20Validation(t *testing.T, run *Run, bin string, sc c20Scenario) {
